@@ -177,7 +177,7 @@ func (c *c05) build(seed uint64, tier string) {
 // streamWraps are reader shapes built on the fault-injecting stream; stdWraps are
 // the standard library's own reader types (no fault can be injected into them).
 var (
-	streamWraps = []string{"wt", "seek", "len", "rat", "bufio", "osfile"}
+	streamWraps = []string{"wt", "seek", "len", "rat", "bufio", "osfile", "limited"}
 	stdWraps    = []string{"bytes", "strings", "buffer", "section", "osfile-real"}
 )
 
@@ -445,6 +445,11 @@ func (c *c05) Check(rr *RunResult, st *Stats) []Failure {
 		}
 		k := d.FaultAt
 		reach, corner := FaultReach(d, n, limit)
+		if op.Wrap == "limited" && reach && k == n && !d.FaultWithData && LimitedN(n, oi) == n {
+			// the LimitedReader has handed out its N bytes and answers io.EOF itself: the
+			// failing Read of the stream below is never issued
+			reach = false
+		}
 		// consumption
 		consumed := -1
 		if res.Stream != nil {
